@@ -1010,16 +1010,16 @@ class QueryBuilder(Selectable, Term):  # type:ignore[misc]
 
         self._from = [
             (
-                new_table
+                _replacement_for(table, current_table, new_table)
                 if isinstance(table, Table) and table == current_table
                 else _replace(table)
             )  # type:ignore[misc]
             for table in self._from
         ]
-        if self._insert_table == current_table:
-            self._insert_table = new_table
-        if self._update_table == current_table:
-            self._update_table = new_table
+        if self._insert_table is not None and self._insert_table == current_table:
+            self._insert_table = _replacement_for(self._insert_table, current_table, new_table)
+        if self._update_table is not None and self._update_table == current_table:
+            self._update_table = _replacement_for(self._update_table, current_table, new_table)
 
         self._with = [
             Cte(cte.name, _replace(cte.query), *[_replace(term) for term in cte.terms])
@@ -1991,11 +1991,35 @@ class Joiner:
         return self.query
 
 
+def _replacement_for(table: Table, current_table: Table | None, new_table: Table | None) -> Table | None:
+    """
+    The table that takes the place of a source equal to current_table. Table equality leaves the temporal clause
+    aside: a source read through FOR .. / FOR PORTION OF .. while the call names the plain tables keeps its clause.
+    """
+    temporal = table._for is not None or table._for_portion is not None
+    if (
+        not temporal
+        or not isinstance(new_table, Table)
+        or not isinstance(current_table, Table)
+        or current_table._for is not None
+        or current_table._for_portion is not None
+        or new_table._for is not None
+        or new_table._for_portion is not None
+    ):
+        return new_table
+    replacement = copy(new_table)
+    if table._for is not None:
+        replacement._for = table._for.replace_table(current_table, new_table)
+    if table._for_portion is not None:
+        replacement._for_portion = table._for_portion.replace_table(current_table, new_table)
+    return replacement
+
+
 def _replace_join_item(item: Any, current_table: Table | None, new_table: Table | None) -> Any:
     """The joined item is a table (replaced when it is the table in question) or a subquery (searched)."""
     if isinstance(item, Table):
         # only tables compare by value; a set operation inherits Term.__eq__, which builds a criterion
-        return new_table if item == current_table else item
+        return _replacement_for(item, current_table, new_table) if item == current_table else item
     if isinstance(item, Term):
         return item.replace_table(current_table, new_table)
     return item
